@@ -609,6 +609,40 @@ def run(prog, rep):
         msg = "buf->size = %s" % show(rhs)
     rep.ob("C08.4", nw, "modulus:source", ok4, "the ring modulus derives only from the size the shm layer reports (%s)" % msg if ok4 else
            "the ring modulus is %s: it depends on this handle's size argument, so two handles of one name can use different moduli" % (msg or "written in several places"), nw.loc[0])
+    # ... and the ring fits: data area starts 16 bytes into the segment (two position words), so the modulus is at most the reported
+    # size minus that header - `size - 16 + 1` puts the last slot of the ring one byte behind the mapping (a fault when the
+    # segment ends at a page boundary, a byte no other handle sees otherwise)
+    if ok4:
+        terms_, const_ = [], 0
+        stack = [writers[0][1]["r"]]
+        sign = {id(stack[0]): 1}
+        while stack:
+            e = stack.pop()
+            sg = sign.get(id(e), 1)
+            e2 = strip_casts(e)
+            if e2 is None:
+                continue
+            if id(e2) not in sign:
+                sign[id(e2)] = sg
+            if e2["k"] == "bin" and e2["op"] in ("+", "-"):
+                sign[id(e2["l"])] = sg
+                sign[id(e2["r"])] = sg if e2["op"] == "+" else -sg
+                stack += [e2["l"], e2["r"]]
+            elif cv(e2) is not None:
+                const_ += sg * cv(e2)
+            elif e2["k"] == "ref" and e2.get("decl") == "local" and nw.resolve(e2) is not None:
+                r2 = nw.resolve(e2)
+                sign[id(r2)] = sg
+                stack.append(r2)
+            else:
+                terms_.append((sg, e2))
+        whole = len(terms_) == 1 and terms_[0][0] == 1 and terms_[0][1]["k"] == "call" and terms_[0][1].get("callee") == "p_shm_get_size"
+        if whole:
+            rep.ob("C08.4", nw, "modulus:inside", const_ <= -16, "the ring modulus is the reported size minus the %d-byte header: every slot lies inside the segment" % -const_ if const_ <= -16 else
+                   "line %d: the ring modulus is the reported size %+d: with the data area starting at byte 16 the last slot of the ring lies %d byte(s) behind the segment" % (
+                       line(writers[0][1]), const_, const_ + 16), writers[0][1])
+        else:
+            rep.note("C08.4 modulus:inside not judged: the modulus is not `p_shm_get_size (...) + constant` in this form")
     # second half: the shm layer's reported size must not depend on a follower's argument
     su = prog.unit("pshm-posix.c")
     ch = su.fn("pp_shm_create_handle")
@@ -840,6 +874,8 @@ def run(prog, rep):
 RENAME_LOCALS = ['src/pshmbuffer.c']
 
 SELFTEST = [
+    dict(id="modulus-one-beyond-segment", file="src/pshmbuffer.c", expect="C08.4",
+         old="\tret->size = p_shm_get_size (shm) - P_SHM_BUFFER_DATA_OFFSET;", new="\tret->size = p_shm_get_size (shm) - P_SHM_BUFFER_DATA_OFFSET + 1;"),
     dict(id="clear-address-test-inverted", file="src/pshmbuffer.c", expect="C08.2", count=1,
          old="\tif (P_UNLIKELY ((addr = p_shm_get_address (buf->shm)) == NULL)) {\n\t\tP_ERROR (\"PShmBuffer::p_shm_buffer_clear: p_shm_get_address() failed\");",
          new="\tif (P_UNLIKELY ((addr = p_shm_get_address (buf->shm)) != NULL)) {\n\t\tP_ERROR (\"PShmBuffer::p_shm_buffer_clear: p_shm_get_address() failed\");"),
